@@ -791,6 +791,13 @@ def check_batch(case, ctx):
     out = d / "results"
     out.mkdir()
     desc = {"model": mk, "range_type": full["range_type"]}
+    if len(expected_rows) % 2 == 1:
+        # the results directory already holds the output of an earlier run (over other data): the statistics
+        # file must describe THIS run only
+        (out / "statistics.tsv").write_text("path\tenum\tE\trating\n/old/run/curve.jpk-force\t0\t1234.5\t3.2\n")
+        (out / "plots.tif").write_bytes(b"stale")
+        ctx.event("batch_into_used_results_dir")
+        desc["results_dir"] = "used"
     rating.fit_data.cache_clear()
     ok = False
     try:
